@@ -1,5 +1,6 @@
 import Sop.Lemmas.Commit
 import Sop.Lemmas.CommitWitness
+import Sop.Lemmas.CommitPhase1
 /-!
 # C10 — no live item or node ever refers to deleted or partially written data
 
@@ -31,6 +32,28 @@ theorem rollback_target_is_staged (now hour : Int) (f : UUID) (h h' : Handle) (v
     (e : reserveOne now hour f h v = some h') (hf : f ≠ h.active) : h'.inactive = f ∧ h'.inactive ≠ h'.active := by
   obtain ⟨_, r2, _, r4, _, _, _⟩ := reserveOne_spec now hour f h h' v e
   exact ⟨r4, by rw [r4, r2]; exact hf⟩
+
+/-- **Nothing the commit code deletes or overwrites before its commit point is live data**: for every write set,
+every start state satisfying `Pre` and every fault, when phase 1 ends (normally, or by raising at the failing
+call) every node that was loadable at the start still loads, under the same blob id. The proof goes through every
+deletion of phase 1 and of the live rollback (`SInv.delBlobs_static`, `SInv.delRegs`): their targets are ids with
+inactive provenance, new-node ids or value-blob ids, never a pre-existing node's active id. -/
+theorem C10_phase1_keeps_loadable (s0 : State) (w : WS) (fresh0 : List (UUID × UUID)) (pre : Pre s0 w fresh0)
+    (fault : Option Fault) (tid : Tid) (n : Nat) :
+    match phase1 w n { s := s0, tid := tid, fault := fault, fresh := fresh0 } with
+    | .ok (_, r) => ∀ lid, (s0.view lid).isSome → r.s.view lid = s0.view lid
+    | .error r => ∀ lid, (s0.view lid).isSome → r.s.view lid = s0.view lid :=
+  phase1_keeps_views pre fault tid n
+
+/-- and the same after the live rollback of a failed phase 1 -/
+theorem C10_failed_commit_keeps_loadable (s0 : State) (w : WS) (fresh0 : List (UUID × UUID)) (pre : Pre s0 w fresh0)
+    (fault : Option Fault) (tid : Tid) (n : Nat) (r1 : Run)
+    (hf : phase1 w n { s := s0, tid := tid, fault := fault, fresh := fresh0 } = .error r1) :
+    ∀ lid, (s0.view lid).isSome →
+      (commit w n { s := s0, tid := tid, fault := fault, fresh := fresh0 }).2.s.view lid = s0.view lid :=
+  commit_phase1_failure_keeps_views pre fault tid n r1 hf
+
+theorem C10_premises_satisfiable : Pre Witness.s0 Witness.wSplit [(1, 9)] := Witness.pre_wSplit
 
 /-- a successful commit of the witness transaction leaves node 1 loadable under its new id, the old blob deleted -/
 theorem commit_keeps_loadable :
